@@ -106,29 +106,44 @@ pub fn parent(a: &Args) {
         None => break,
       };
       let hist = job.dir.join("hist.ndjson");
-      let mut child = std::process::Command::new(&exe)
-        .arg("child")
-        .arg("--spec")
-        .arg(job.dir.join("spec.json"))
-        .arg("--out")
-        .arg(&hist)
-        .stdin(std::process::Stdio::null())
-        .stdout(std::process::Stdio::null())
-        .stderr(std::process::Stdio::null())
-        .spawn()
-        .expect("spawn child");
-      let t0 = Instant::now();
-      let status = loop {
-        match child.try_wait().expect("wait") {
-          Some(st) => break Some(st),
-          None if t0.elapsed() > limit => {
-            let _ = child.kill();
-            let _ = child.wait();
-            break None;
+      // a child that exceeds the limit is run once more with twice the limit (a loaded machine is not a hang)
+      let mut status = None;
+      for attempt in 0..2u32 {
+        let _ = std::fs::remove_file(&hist);
+        for (name, kind) in job.spec["apps"].as_array().unwrap().iter().map(|a| (a["n"].as_str().unwrap(), a["kind"].as_str().unwrap())) {
+          let _ = std::fs::remove_file(job.dir.join(format!("{}.log", name)));
+          if kind == "roll" {
+            let _ = std::fs::remove_dir_all(job.dir.join(format!("roll_{}", name)));
           }
-          None => std::thread::sleep(Duration::from_millis(5)),
         }
-      };
+        let mut child = std::process::Command::new(&exe)
+          .arg("child")
+          .arg("--spec")
+          .arg(job.dir.join("spec.json"))
+          .arg("--out")
+          .arg(&hist)
+          .stdin(std::process::Stdio::null())
+          .stdout(std::process::Stdio::null())
+          .stderr(std::process::Stdio::null())
+          .spawn()
+          .expect("spawn child");
+        let t0 = Instant::now();
+        let lim = limit * (attempt + 1);
+        status = loop {
+          match child.try_wait().expect("wait") {
+            Some(st) => break Some(st),
+            None if t0.elapsed() > lim => {
+              let _ = child.kill();
+              let _ = child.wait();
+              break None;
+            }
+            None => std::thread::sleep(Duration::from_millis(5)),
+          }
+        };
+        if status.is_some() {
+          break;
+        }
+      }
       let mut lines: Vec<String> = std::fs::read_to_string(&hist).unwrap_or_default().lines().map(|s| s.to_string()).collect();
       let header = json!({"k": "new", "kf": job.spec["kf"], "lg": job.spec["lg"], "apps": job.spec["apps"], "threads": job.spec["threads"],
                           "what": job.spec["mode"], "cut": job.spec["cut"], "drop": job.spec["drop"], "idx": job.spec["idx"], "seed": job.spec["seed"]});
